@@ -626,3 +626,66 @@ Lemma thm_sender grants s c :
   let rest := snd (sendall grants s) in
   concat l ++ rest = s /\ data_of c (map (fun p => (c, Data p)) l) = concat l.
 Proof. cbv zeta. split; [apply sendall_concat|apply data_of_own]. Qed.
+
+(* ---- exit status at statement granularity ----------------------------------------------------- *)
+Ltac merge_cases :=
+  repeat match goal with
+         | H : Merge _ _ _ |- _ => inversion H; clear H; subst
+         end.
+
+Lemma exit_concurrent old n l s' :
+  Merge (prog_handler n) prog_reader l -> xrun (xinit old) l = Some s' -> x_result s' = Some n.
+Proof.
+  unfold prog_handler, prog_reader. intros M R. merge_cases; cbn in R; try discriminate;
+    injection R as <-; reflexivity.
+Qed.
+
+Lemma exit_swapped_races old n :
+  exists l s', Merge (prog_handler_swapped n) prog_reader l /\
+               xrun (xinit old) l = Some s' /\ x_result s' = Some old.
+Proof.
+  exists [XSet; RWait; RRead; XStore n]. eexists. split; [|split; [reflexivity|reflexivity]].
+  unfold prog_handler_swapped, prog_reader. repeat constructor.
+Qed.
+
+Lemma exit_handler_atomic e st r n : xrun (mkX e st r) (prog_handler n) = Some (mkX n true r).
+Proof. reflexivity. Qed.
+
+Lemma exit_reader_blocks_until_set old : xrun (xinit old) prog_reader = None.
+Proof. reflexivity. Qed.
+
+(* ---- sender with the window ---------------------------------------------------------------------- *)
+Lemma send_size_bounds len w p :
+  let '(size, w') := send_size len w p in size <= len /\ size <= w /\ w' = w - size.
+Proof.
+  unfold send_size. destruct (w <? len) eqn:E1; destruct (p - 64 <? _) eqn:E2; lia.
+Qed.
+
+Lemma sendall_win_ok : forall fuel w p s,
+  let '(l, rest, wf) := sendall_win fuel w p s in
+  concat l ++ rest = s /\ w - wf = Z.of_nat (length (concat l)).
+Proof.
+  induction fuel as [|f IH]; intros w p s; cbn [sendall_win].
+  - cbn. split; [reflexivity|lia].
+  - destruct s as [|x s]; [cbn; split; [reflexivity|lia]|].
+    destruct (w <=? 0) eqn:Ew; [cbn; split; [reflexivity|lia]|].
+    pose proof (send_size_bounds (Z.of_nat (length (x :: s))) w p) as B.
+    destruct (send_size (Z.of_nat (length (x :: s))) w p) as [size w'].
+    destruct B as (B1 & B2 & B3).
+    destruct (size <=? 0) eqn:Es; [cbn; split; [reflexivity|lia]|].
+    specialize (IH w' p (skipn (Z.to_nat size) (x :: s))).
+    destruct (sendall_win f w' p (skipn (Z.to_nat size) (x :: s))) as [[l rest] wf].
+    destruct IH as [I1 I2]. cbn [concat]. split.
+    + rewrite <- app_assoc, I1. apply firstn_skipn.
+    + rewrite app_length, firstn_length, Nat2Z.inj_add, <- I2.
+      rewrite Nat.min_l by lia. lia.
+Qed.
+
+Lemma thm_sender_window w p s :
+  let r := sendall_win (S (length s)) w p s in
+  concat (fst (fst r)) ++ snd (fst r) = s /\
+  w - snd r = Z.of_nat (length (concat (fst (fst r)))).
+Proof.
+  cbv zeta. pose proof (sendall_win_ok (S (length s)) w p s) as H.
+  destruct (sendall_win (S (length s)) w p s) as [[l rest] wf]. exact H.
+Qed.
